@@ -744,6 +744,15 @@ def legacyPush (strict : Bool) (ls : List LegacyLayer) (man : List Resp) : List 
   if r.2 then ((r.1 ++ (legacyManifest strict man).1), (legacyManifest strict man).2)
   else (r.1, false)
 
+/-- SEQUENTIAL pushes in one process.  The digest-keyed `blobUploadManager` holds an entry exactly as
+    long as its transfer: `uploadBlob` publishes it, a failed `Prepare` deletes it, `Run` deletes
+    it when it returns (`defer blobUploadManager.Delete`), whatever the result.  So the manager is
+    empty whenever a push of a sequential history starts — a finished upload of the same digest
+    (to this or another repository) is never joined — and every push is a single push answered
+    by its own scripts (the registry's per-repository state shows in the HEAD answers). -/
+def legacySequential (strict : Bool) (ps : List (List LegacyLayer × List Resp)) : List (List LegEv × Bool) :=
+  ps.map fun p => legacyPush strict p.1 p.2
+
 /-! ## Two legacy pushes sharing one upload (`blobUploadManager`)
 
   Push A finds the layer absent, publishes a `blobUpload` (`LoadOrStore` miss) and opens the upload
